@@ -517,6 +517,14 @@ def run(index: RepoIndex, rep) -> None:
     rep.rule('C11.R1', 'move_obstacles: list collected before the loop, candidates = in-grid '
              'Floor neighbours at its turn, full-support index, swap only, stays if none',
              floor=10)
+    rep.rule('C11.R4', 'the dynamics reach the environment as configured: chain runs each part '
+             'once per step, the factory binds the configured parts as given, and a step works '
+             'on a plain deep copy of the caller\'s state (C08.R8)', floor=20)
+    from .c09 import deep_copy_rule
+    from .wiring import chain_once, transition_factory_passthrough
+    deep_copy_rule(index, rep, 'C11.R4')
+    chain_once(index, rep, 'C11.R4')
+    transition_factory_passthrough(index, rep, 'C11.R4')
     rep.rule('C11.R2', 'get_manhattan_boundary(p, 1) is the four neighbours', floor=2)
     rep.rule('C11.R3', 'teleport: only from a Telepod, to another pod of the same colour, '
              'full support, no partner -> no move', floor=5)
